@@ -510,6 +510,31 @@ func runPopEndScripted(c *core.Ctx, m *core.Model, r *rand.Rand, idx int) {
 	if !conn.closed {
 		c.Fail("connection-closed", cas, "startSession returned without closing the connection", "")
 	}
+	// however that session ended, the server serves its NEXT client (no command sequence crashes or wedges the SERVER): an ordinary session on
+	// the same pop3.Server right afterwards — greeting, USER, PASS, STAT, QUIT, each answered +OK
+	{
+		var nvs *pop3.VerifSession
+		in, nerr := pipeSession(func(cn net.Conn) {
+			nvs = srv.VerifStartSession(idx+1000000, cn)
+			<-nvs.Done
+		}, []byte("USER nextclient\r\nPASS secret\r\nSTAT\r\nQUIT\r\n"), 10*time.Second)
+		ok := 0
+		for _, l := range strings.Split(string(in), "\r\n") {
+			if strings.HasPrefix(l, "+OK") {
+				ok++
+			}
+		}
+		c.H("c13end:next-session-on-the-same-server")
+		if nvs != nil && nvs.Panic != "" {
+			c.Fail("no-panic", append(append([]string{}, cas...), "then an ordinary session on the same server: USER nextclient, PASS secret, STAT, QUIT"), trunc(nvs.Panic, 1500), "")
+			return
+		}
+		if ok != 5 {
+			c.Fail("next-session-works", append(append([]string{}, cas...), "then an ordinary session on the same server: USER nextclient, PASS secret, STAT, QUIT"),
+				fmt.Sprintf("the next client of the same server got %d of the 5 +OK answers it is owed (greeting, USER, PASS, STAT, QUIT): %q (err %v)", ok, trunc(string(in), 300), nerr), "")
+			return
+		}
+	}
 	segs, bad := popSegments(conn, nEv)
 	if bad != "" && pc.wfail < 0 {
 		c.Fail("reply-well-formed", cas, bad, "")
